@@ -14,7 +14,10 @@ PROP = 'C09'
 
 def gate_case(item):
     k, slots, nested, log, fail, plan = item
-    g = gate.GateRun(k, slots, nested=nested, log=log, fail=fail)
+    steal = False
+    if isinstance(log, str):
+        steal, log = True, False
+    g = gate.GateRun(k, slots, nested=nested, log=log, fail=fail, steal=steal)
     try:
         r = g.run(plan)
     finally:
@@ -44,8 +47,8 @@ def gate_case(item):
     first_unplanned = r['steps'][len(plan)][0] if len(r['steps']) > len(plan) else None
     delivered = [tuple(s[1]) for s in r['steps']]
     res = dict(verdict='violated' if anoms else 'held', nontrivial=len(r['steps']) >= 2,
-               shape=common.shash([k, slots, nested, log, sorted(fail), delivered]),
-               sample=dict(kind='gate', k=k, slots=slots, nested=nested, log=log, fail=sorted(fail), plan=plan, delivered=delivered, rc=r['rc']),
+               shape=common.shash([k, slots, nested, log, steal, sorted(fail), delivered]),
+               sample=dict(kind='gate', k=k, slots=slots, nested=nested, log=log, steal=steal, fail=sorted(fail), plan=plan, delivered=delivered, rc=r['rc']),
                obs=dict(gate_paths=1, gate_steps=len(r['steps'])), sets=dict(ready_sets=sorted(ready)),
                avail=first_unplanned, item=item)
     if anoms:
@@ -255,7 +258,7 @@ def main(tier):
     budget = 100 if quick else 1100
     rnd = random.Random(common.seed())
     # layer 1
-    cfgs = [(2, 2, False, False, ()), (2, 1, False, False, ()), (2, 3, False, False, ())]
+    cfgs = [(2, 2, False, False, ()), (2, 1, False, False, ()), (2, 3, False, False, ()), (2, 2, False, 'steal', ())]
     if not quick:
         cfgs += [(3, 2, False, False, ()), (3, 3, False, False, ()), (2, 2, True, False, ()), (2, 2, False, True, ()),
                  (2, 2, False, False, (1,)), (3, 2, False, False, (2,)), (3, 1, False, False, ()), (3, 2, True, False, ())]
